@@ -43,6 +43,12 @@ where
 			// ASCII-only text in UTF-16 or UTF-32 is also valid UTF-8 (full of
 			// NUL characters), so validity alone can't select the fast path.
 			Ok(s) if matches!(Encoding::detect(&b), Encoding::Utf8) => {
+				// serde_yaml presents a stream without documents as a single
+				// empty document, where the chunker (like every other input
+				// format) presents no documents at all.
+				if chunker::stream_has_no_documents(s.as_bytes()) {
+					return Ok(());
+				}
 				for de in serde_yaml::Deserializer::from_str(s) {
 					output.transcode_from(de)?;
 				}
